@@ -24,15 +24,17 @@ type fgnRel struct {
 	Src, ID, K, Ty, Rt, Tg, Mode, Ref string
 }
 
+type fgnItem struct{ K, V string }
+
 type fgnRun struct {
-	C  string
-	Ts []string
+	C, W string
+	Its  []fgnItem
 }
 
 type fgnBlock struct {
-	Blk, Rel string
-	Link     bool
-	Runs     []fgnRun
+	Blk, Rel, Sty string
+	Link          bool
+	Runs          []fgnRun
 }
 
 type fgnModel struct {
@@ -42,6 +44,8 @@ type fgnModel struct {
 	Ns     string
 	PkgNs  string
 	HLink  string
+	StySp  string          // spelling of word/styles.xml
+	StyDef map[string]bool // style ids it defines
 	byName map[string]fgnPart
 }
 
@@ -65,6 +69,16 @@ func fgnDecodeModel(v interface{}) (*fgnModel, error) {
 		return nil, fmt.Errorf("Open without pkg")
 	}
 	m := &fgnModel{Ns: fgnStr(mm, "ns"), PkgNs: fgnStr(mm, "pkgns"), HLink: fgnStr(mm, "hlink"), byName: map[string]fgnPart{}}
+	m.StyDef = map[string]bool{}
+	if st, ok := mm["styles"].(map[string]interface{}); ok {
+		m.StySp = fgnStr(st, "sp")
+		ids, _ := st["defs"].([]interface{})
+		for _, id := range ids {
+			if s, ok := id.(string); ok {
+				m.StyDef[s] = true
+			}
+		}
+	}
 	for _, p := range fgnList(mm["parts"]) {
 		fp := fgnPart{N: fgnStr(p, "n"), K: fgnStr(p, "k"), Via: fgnStr(p, "via"), Cls: fgnStr(p, "cls")}
 		m.Parts = append(m.Parts, fp)
@@ -75,14 +89,12 @@ func fgnDecodeModel(v interface{}) (*fgnModel, error) {
 			Rt: fgnStr(r, "rt"), Tg: fgnStr(r, "tg"), Mode: fgnStr(r, "mode"), Ref: fgnStr(r, "ref")})
 	}
 	for _, b := range fgnList(mm["body"]) {
-		fb := fgnBlock{Blk: fgnStr(b, "blk"), Rel: fgnStr(b, "rel")}
+		fb := fgnBlock{Blk: fgnStr(b, "blk"), Rel: fgnStr(b, "rel"), Sty: fgnStr(b, "sty")}
 		fb.Link, _ = b["link"].(bool)
 		for _, r := range fgnList(b["runs"]) {
-			fr := fgnRun{C: fgnStr(r, "c")}
-			ts, _ := r["ts"].([]interface{})
-			for _, t := range ts {
-				s, _ := t.(string)
-				fr.Ts = append(fr.Ts, s)
+			fr := fgnRun{C: fgnStr(r, "c"), W: fgnStr(r, "w")}
+			for _, it := range fgnList(r["its"]) {
+				fr.Its = append(fr.Its, fgnItem{K: fgnStr(it, "k"), V: fgnStr(it, "v")})
 			}
 			fb.Runs = append(fb.Runs, fr)
 		}
@@ -104,6 +116,8 @@ func fgnDecodeModel(v interface{}) (*fgnModel, error) {
 const (
 	fgnODBase = "http://schemas.openxmlformats.org/officeDocument/2006/relationships/"
 	fgnPKBase = "http://schemas.openxmlformats.org/package/2006/relationships/"
+	fgnMS07   = "http://schemas.microsoft.com/office/2007/relationships/"
+	fgnMS11   = "http://schemas.microsoft.com/office/2011/relationships/"
 	fgnWML    = "application/vnd.openxmlformats-officedocument.wordprocessingml."
 	fgnDecl   = `<?xml version="1.0" encoding="UTF-8" standalone="yes"?>` + "\r\n"
 )
@@ -115,6 +129,10 @@ func fgnTypeURI(tok string) string {
 		return fgnODBase + tok[3:]
 	case strings.HasPrefix(tok, "pk/"):
 		return fgnPKBase + tok[3:]
+	case strings.HasPrefix(tok, "ms07/"):
+		return fgnMS07 + tok[5:]
+	case strings.HasPrefix(tok, "ms11/"):
+		return fgnMS11 + tok[5:]
 	}
 	return tok
 }
@@ -125,6 +143,10 @@ func fgnTypeTok(uri string) string {
 		return "od/" + uri[len(fgnODBase):]
 	case strings.HasPrefix(uri, fgnPKBase):
 		return "pk/" + uri[len(fgnPKBase):]
+	case strings.HasPrefix(uri, fgnMS07):
+		return "ms07/" + uri[len(fgnMS07):]
+	case strings.HasPrefix(uri, fgnMS11):
+		return "ms11/" + uri[len(fgnMS11):]
 	}
 	return uri
 }
@@ -136,8 +158,14 @@ func fgnContentType(p fgnPart) string {
 	switch p.K {
 	case "main":
 		return fgnWML + "document.main+xml"
-	case "styles", "fontTable", "settings", "webSettings", "numbering", "footnotes", "endnotes", "comments":
+	case "styles", "fontTable", "settings", "webSettings", "numbering", "footnotes", "endnotes", "comments", "people", "commentsExtended":
 		return fgnWML + p.K + "+xml"
+	case "glossary":
+		return fgnWML + "document.glossary+xml"
+	case "glossary-styles":
+		return fgnWML + "styles+xml"
+	case "stylesWithEffects":
+		return "application/vnd.ms-word.stylesWithEffects+xml"
 	case "header", "header1":
 		return fgnWML + "header+xml"
 	case "footer1":
@@ -260,14 +288,27 @@ func (w fgnW) decl() string {
 	return `xmlns:` + w.ns + `="` + nsW + `"`
 }
 
-func (w fgnW) run(r fgnRun) string {
+// run writes one w:r with exactly the items the specification lists, in that order.
+func (w fgnW) run(r fgnRun, n int) string {
 	var sb strings.Builder
 	fmt.Fprintf(&sb, "<%s>", w.el("r"))
-	for i, t := range r.Ts {
-		if i > 0 {
-			fmt.Fprintf(&sb, "<%s/>", w.el("tab"))
+	for _, it := range r.Its {
+		switch it.K {
+		case "t":
+			fmt.Fprintf(&sb, `<%s xml:space="preserve">%s</%s>`, w.el("t"), fgnEsc(it.V), w.el("t"))
+		case "tab", "br":
+			fmt.Fprintf(&sb, "<%s/>", w.el(it.K))
+		case "fldChar":
+			fmt.Fprintf(&sb, `<%s %s="%s"/>`, w.el("fldChar"), w.at("fldCharType"), fgnEsc(it.V))
+		case "instrText":
+			fmt.Fprintf(&sb, `<%s xml:space="preserve">%s</%s>`, w.el("instrText"), fgnEsc(it.V), w.el("instrText"))
+		case "fnref":
+			fmt.Fprintf(&sb, `<%s %s="%s"/>`, w.el("footnoteReference"), w.at("id"), fgnEsc(it.V))
+		case "drawing":
+			sb.WriteString(w.drawing(it.V, false, 300+n))
+		default:
+			panic("fgn: unknown run item " + it.K)
 		}
-		fmt.Fprintf(&sb, `<%s xml:space="preserve">%s</%s>`, w.el("t"), fgnEsc(t), w.el("t"))
 	}
 	fmt.Fprintf(&sb, "</%s>", w.el("r"))
 	return sb.String()
@@ -291,7 +332,7 @@ func (w fgnW) wrap(c string, inner string, m *fgnModel) string {
 		return fmt.Sprintf(`<%s %s="urn:schemas-microsoft-com:office:smarttags" %s="place">%s</%s>`, w.el("smartTag"), w.at("uri"), w.at("element"), s, w.el("smartTag"))
 	}
 	switch c {
-	case "plain", "multiT":
+	case "plain":
 		return inner
 	case "hyperlink":
 		return hl(inner)
@@ -315,30 +356,38 @@ func (w fgnW) wrap(c string, inner string, m *fgnModel) string {
 	panic("fgn: unknown container " + c)
 }
 
-func (w fgnW) para(b fgnBlock, m *fgnModel, styled bool) string {
+func (w fgnW) para(b fgnBlock, m *fgnModel, n int) string {
 	var sb strings.Builder
 	fmt.Fprintf(&sb, "<%s>", w.el("p"))
-	if styled {
-		fmt.Fprintf(&sb, `<%s><%s %s="ForeignStyle"/></%s>`, w.el("pPr"), w.el("pStyle"), w.at("val"), w.el("pPr"))
+	if b.Sty != "" {
+		fmt.Fprintf(&sb, `<%s><%s %s="%s"/></%s>`, w.el("pPr"), w.el("pStyle"), w.at("val"), fgnEsc(b.Sty), w.el("pPr"))
 	}
-	for _, r := range b.Runs {
-		sb.WriteString(w.wrap(r.C, w.run(r), m))
+	for j, r := range b.Runs {
+		sb.WriteString(w.wrap(r.W, w.run(r, n*10+j), m))
 	}
 	fmt.Fprintf(&sb, "</%s>", w.el("p"))
 	return sb.String()
 }
 
-func (w fgnW) pic(b fgnBlock, n int) string {
-	attr := "r:embed"
-	if b.Link {
-		attr = "r:link"
+// drawing writes an inline picture; rel = "" gives a picture frame without a blip reference.
+func (w fgnW) drawing(rel string, link bool, id int) string {
+	attr := ""
+	if rel != "" {
+		attr = ` r:embed="` + fgnEsc(rel) + `"`
+		if link {
+			attr = ` r:link="` + fgnEsc(rel) + `"`
+		}
 	}
-	return fmt.Sprintf(`<%[1]s><%[2]s><%[3]s><wp:inline distT="0" distB="0" distL="0" distR="0"><wp:extent cx="914400" cy="914400"/>`+
-		`<wp:docPr id="%[4]d" name="Picture %[4]d"/><a:graphic><a:graphicData uri="http://schemas.openxmlformats.org/drawingml/2006/picture">`+
-		`<pic:pic><pic:nvPicPr><pic:cNvPr id="%[4]d" name="pic%[4]d"/><pic:cNvPicPr/></pic:nvPicPr><pic:blipFill><a:blip %[5]s="%[6]s"/>`+
+	return fmt.Sprintf(`<%[1]s><wp:inline distT="0" distB="0" distL="0" distR="0"><wp:extent cx="914400" cy="914400"/>`+
+		`<wp:docPr id="%[2]d" name="Picture %[2]d"/><a:graphic><a:graphicData uri="http://schemas.openxmlformats.org/drawingml/2006/picture">`+
+		`<pic:pic><pic:nvPicPr><pic:cNvPr id="%[2]d" name="pic%[2]d"/><pic:cNvPicPr/></pic:nvPicPr><pic:blipFill><a:blip%[3]s/>`+
 		`<a:stretch><a:fillRect/></a:stretch></pic:blipFill><pic:spPr><a:xfrm><a:off x="0" y="0"/><a:ext cx="914400" cy="914400"/></a:xfrm>`+
-		`<a:prstGeom prst="rect"><a:avLst/></a:prstGeom></pic:spPr></pic:pic></a:graphicData></a:graphic></wp:inline></%[3]s></%[2]s></%[1]s>`,
-		w.el("p"), w.el("r"), w.el("drawing"), 100+n, attr, fgnEsc(b.Rel))
+		`<a:prstGeom prst="rect"><a:avLst/></a:prstGeom></pic:spPr></pic:pic></a:graphicData></a:graphic></wp:inline></%[1]s>`,
+		w.el("drawing"), id, attr)
+}
+
+func (w fgnW) pic(b fgnBlock, n int) string {
+	return fmt.Sprintf(`<%[1]s><%[2]s>%[3]s</%[2]s></%[1]s>`, w.el("p"), w.el("r"), w.drawing(b.Rel, b.Link, 100+n))
 }
 
 func fgnDocumentXML(m *fgnModel) []byte {
@@ -349,15 +398,15 @@ func fgnDocumentXML(m *fgnModel) []byte {
 	for i, b := range m.Body {
 		switch b.Blk {
 		case "p":
-			sb.WriteString(w.para(b, m, i == 0))
+			sb.WriteString(w.para(b, m, i))
 		case "pic":
 			sb.WriteString(w.pic(b, i))
 		case "tbl":
 			fmt.Fprintf(&sb, `<%[1]s><%[2]s><%[3]s %[4]s="0" %[5]s="auto"/></%[2]s><%[6]s><%[7]s %[4]s="4000"/></%[6]s><%[8]s><%[9]s><%[10]s><%[11]s %[4]s="4000" %[5]s="dxa"/></%[10]s>%[12]s</%[9]s></%[8]s></%[1]s>`,
-				w.el("tbl"), w.el("tblPr"), w.el("tblW"), w.at("w"), w.at("type"), w.el("tblGrid"), w.el("gridCol"), w.el("tr"), w.el("tc"), w.el("tcPr"), w.el("tcW"), w.para(b, m, false))
+				w.el("tbl"), w.el("tblPr"), w.el("tblW"), w.at("w"), w.at("type"), w.el("tblGrid"), w.el("gridCol"), w.el("tr"), w.el("tc"), w.el("tcPr"), w.el("tcW"), w.para(b, m, i))
 		case "sdtblk":
 			fmt.Fprintf(&sb, `<%[1]s><%[2]s><%[3]s %[4]s="Block control"/></%[2]s><%[5]s>%[6]s</%[5]s></%[1]s>`,
-				w.el("sdt"), w.el("sdtPr"), w.el("alias"), w.at("val"), w.el("sdtContent"), w.para(b, m, false))
+				w.el("sdt"), w.el("sdtPr"), w.el("alias"), w.at("val"), w.el("sdtContent"), w.para(b, m, i))
 		default:
 			panic("fgn: unknown block " + b.Blk)
 		}
@@ -386,18 +435,135 @@ func fgnDocumentXML(m *fgnModel) []byte {
 	return []byte(sb.String())
 }
 
+// fgnStylesXML writes word/styles.xml in the spelling and with the definitions the specification chose.
+// The same infoset is written under every spelling: another namespace prefix, the default namespace
+// (attributes stay qualified, as WordprocessingML requires), single-quoted attributes and declaration
+// (what lxml-based producers write), attributes in another order.
+func fgnStylesXML(m *fgnModel) []byte {
+	ep, ap, q, rev := "w:", "w:", `"`, false
+	root := `xmlns:w="` + nsW + `"`
+	decl := fgnDecl
+	switch m.StySp {
+	case "", "w":
+	case "ns0":
+		ep, ap, root = "ns0:", "ns0:", `xmlns:ns0="`+nsW+`"`
+	case "default":
+		ep, root = "", `xmlns="`+nsW+`" xmlns:w="`+nsW+`"`
+	case "squote":
+		q, root = "'", `xmlns:w='`+nsW+`'`
+		decl = "<?xml version='1.0' encoding='UTF-8' standalone='yes'?>\n"
+	case "reorder":
+		rev = true
+	default:
+		panic("fgn: unknown styles spelling " + m.StySp)
+	}
+	var sb strings.Builder
+	open := func(name string, selfClose bool, attrs ...string) {
+		sb.WriteString("<" + ep + name)
+		n := len(attrs) / 2
+		for i := 0; i < n; i++ {
+			k := i
+			if rev {
+				k = n - 1 - i
+			}
+			sb.WriteString(" " + ap + attrs[2*k] + "=" + q + fgnEsc(attrs[2*k+1]) + q)
+		}
+		if selfClose {
+			sb.WriteString("/>")
+		} else {
+			sb.WriteString(">")
+		}
+	}
+	end := func(name string) { sb.WriteString("</" + ep + name + ">") }
+	sb.WriteString(decl)
+	sb.WriteString("<" + ep + "styles " + root + ">")
+	open("docDefaults", false)
+	open("rPrDefault", false)
+	open("rPr", false)
+	open("rFonts", true, "ascii", "Calibri", "hAnsi", "Calibri")
+	open("sz", true, "val", "22")
+	end("rPr")
+	end("rPrDefault")
+	open("pPrDefault", false)
+	open("pPr", false)
+	open("spacing", true, "after", "160", "line", "259", "lineRule", "auto")
+	end("pPr")
+	end("pPrDefault")
+	end("docDefaults")
+	open("latentStyles", true, "defLockedState", "0", "count", "376")
+	var ids []string
+	for id := range m.StyDef {
+		ids = append(ids, id)
+	}
+	sort.Slice(ids, func(i, j int) bool { // Normal first, as producers write it
+		if (ids[i] == "Normal") != (ids[j] == "Normal") {
+			return ids[i] == "Normal"
+		}
+		return ids[i] < ids[j]
+	})
+	for _, id := range ids {
+		switch id {
+		case "Normal":
+			open("style", false, "type", "paragraph", "default", "1", "styleId", id)
+			open("name", true, "val", "Normal")
+			open("qFormat", true)
+		case "ForeignStyle":
+			open("style", false, "type", "paragraph", "customStyle", "1", "styleId", id)
+			open("name", true, "val", "Foreign Style")
+			open("basedOn", true, "val", "Normal")
+			open("rPr", false)
+			open("color", true, "val", "1F4E79")
+			end("rPr")
+		default:
+			name := map[string]string{"Heading1": "heading 1", "Title": "Title", "Quote": "Quote"}[id]
+			if name == "" {
+				panic("fgn: no definition for style " + id)
+			}
+			open("style", false, "type", "paragraph", "styleId", id)
+			open("name", true, "val", name)
+			open("basedOn", true, "val", "Normal")
+			open("next", true, "val", "Normal")
+			open("qFormat", true)
+			open("pPr", false)
+			open("keepNext", true)
+			open("spacing", true, "before", "480", "after", "0")
+			end("pPr")
+			open("rPr", false)
+			open("b", true)
+			open("color", true, "val", "C00000")
+			open("sz", true, "val", "30")
+			end("rPr")
+		}
+		end("style")
+	}
+	end("styles")
+	return []byte(sb.String())
+}
+
 // fgnPartBytes gives the bytes of every part other than the four structural ones.
-func fgnPartBytes(p fgnPart, idx int) []byte {
+func fgnPartBytes(m *fgnModel, p fgnPart, idx int) []byte {
 	W := `xmlns:w="` + nsW + `"`
 	x := func(s string) []byte { return []byte(fgnDecl + s) }
 	switch p.K {
 	case "styles":
-		return x(`<w:styles ` + W + `><w:docDefaults><w:rPrDefault><w:rPr><w:rFonts w:ascii="Calibri" w:hAnsi="Calibri"/><w:sz w:val="22"/></w:rPr></w:rPrDefault>` +
-			`<w:pPrDefault><w:pPr><w:spacing w:after="160" w:line="259" w:lineRule="auto"/></w:pPr></w:pPrDefault></w:docDefaults>` +
-			`<w:latentStyles w:defLockedState="0" w:count="376"/>` +
+		return fgnStylesXML(m)
+	case "stylesWithEffects":
+		return x(`<w:styles ` + W + ` xmlns:mc="http://schemas.openxmlformats.org/markup-compatibility/2006" xmlns:w14="http://schemas.microsoft.com/office/word/2010/wordml" mc:Ignorable="w14">` +
+			`<w:docDefaults><w:rPrDefault><w:rPr><w:rFonts w:ascii="Cambria" w:hAnsi="Cambria"/><w14:ligatures w14:val="standard"/></w:rPr></w:rPrDefault></w:docDefaults>` +
 			`<w:style w:type="paragraph" w:default="1" w:styleId="Normal"><w:name w:val="Normal"/><w:qFormat/></w:style>` +
-			`<w:style w:type="paragraph" w:customStyle="1" w:styleId="ForeignStyle"><w:name w:val="Foreign Style"/><w:basedOn w:val="Normal"/><w:rPr><w:color w:val="1F4E79"/></w:rPr></w:style>` +
+			`<w:style w:type="paragraph" w:styleId="Heading1"><w:name w:val="heading 1"/><w:basedOn w:val="Normal"/><w:rPr><w14:shadow w14:blurRad="50800" w14:dist="38100" w14:dir="2700000" w14:sx="100000" w14:sy="100000" w14:kx="0" w14:ky="0" w14:algn="tl"><w14:srgbClr w14:val="000000"/></w14:shadow></w:rPr></w:style>` +
 			`</w:styles>`)
+	case "glossary":
+		return x(`<w:glossaryDocument ` + W + `><w:docParts><w:docPart><w:docPartPr><w:name w:val="Foreign building block"/><w:category><w:name w:val="General"/><w:gallery w:val="placeholder"/></w:category>` +
+			`<w:behaviors><w:behavior w:val="content"/></w:behaviors><w:guid w:val="{6E3D1D7C-55F7-4F2B-9A56-0D2E0C4F2A11}"/></w:docPartPr>` +
+			`<w:docPartBody><w:p><w:pPr><w:pStyle w:val="Heading1"/></w:pPr><w:r><w:t>glossary text</w:t></w:r></w:p></w:docPartBody></w:docPart></w:docParts></w:glossaryDocument>`)
+	case "glossary-styles":
+		return x(`<w:styles ` + W + `><w:style w:type="paragraph" w:default="1" w:styleId="Normal"><w:name w:val="Normal"/></w:style>` +
+			`<w:style w:type="paragraph" w:styleId="Heading1"><w:name w:val="heading 1"/><w:basedOn w:val="Normal"/><w:rPr><w:color w:val="7030A0"/></w:rPr></w:style></w:styles>`)
+	case "people":
+		return x(`<w15:people xmlns:w15="http://schemas.microsoft.com/office/word/2012/wordml"><w15:person w15:author="Reviewer"><w15:presenceInfo w15:providerId="None" w15:userId="Reviewer"/></w15:person></w15:people>`)
+	case "commentsExtended":
+		return x(`<w15:commentsEx xmlns:w15="http://schemas.microsoft.com/office/word/2012/wordml"><w15:commentEx w15:paraId="0A1B2C3D" w15:done="0"/></w15:commentsEx>`)
 	case "theme":
 		return x(`<a:theme xmlns:a="` + nsA + `" name="Foreign Theme"><a:themeElements><a:clrScheme name="Office"><a:dk1><a:sysClr val="windowText" lastClr="000000"/></a:dk1></a:clrScheme></a:themeElements></a:theme>`)
 	case "fontTable":
@@ -481,7 +647,7 @@ func fgnSynth(m *fgnModel) ([]byte, error) {
 		case p.K == "main":
 			data = fgnDocumentXML(m)
 		default:
-			data = fgnPartBytes(p, i)
+			data = fgnPartBytes(m, p, i)
 		}
 		if err := put(n, data); err != nil {
 			return nil, err
